@@ -613,11 +613,16 @@ func (c *chroniclerV2) runCompactionLocked() error {
 	// Close the writer so its file handle is released and all buffered data
 	// is flushed before the compactor reads the file.
 	if c.writer != nil && !c.writerClosed {
-		if err := c.writer.Close(); err != nil {
-			return err
-		}
+		err := c.writer.Close()
+		// The descriptor is released whether or not the final flush succeeded. Keeping a
+		// writer whose Close failed would make every later Write of this session fail
+		// (ErrFileClosed, only logged) while Sync and Close keep answering nil: the next
+		// Write must open a fresh writer, which recovers the file's tail.
 		c.writerClosed = true
 		c.writer = nil
+		if err != nil {
+			return err
+		}
 	}
 
 	// Defensively wipe any leftover temp from a previously crashed run before
@@ -723,14 +728,16 @@ func (c *chroniclerV2) Close() error {
 	// Close the writer if currently open. Skip cleanly if already closed
 	// or never opened — we still want the compaction check below to run.
 	if c.writer != nil && !c.writerClosed {
-		if err := c.writer.Close(); err != nil {
+		err := c.writer.Close()
+		// released either way, see runCompactionLocked
+		c.writerClosed = true
+		c.writer = nil
+		if err != nil {
 			slog.Error("failed to close V2 chronicler writer",
 				"path", c.hydFilePath,
 				"error", err)
 			return err
 		}
-		c.writerClosed = true
-		c.writer = nil
 		slog.Debug("V2 chronicler closed",
 			"path", c.hydFilePath)
 	}
